@@ -23,7 +23,7 @@ import traceback
 
 ROOT = os.path.dirname(os.path.dirname(os.path.abspath(__file__)))
 EVIDENCE_DIR = os.path.join(ROOT, "evidence")
-REPLAY_DIR = os.path.join(ROOT, "replays")
+REPLAY_DIR = os.environ.get("BIOSIM_REPLAY_DIR") or os.path.join(ROOT, "replays")
 KNOWN = os.path.join(ROOT, "known_findings.json")
 
 PROPS = ["C01", "C03", "C04", "C05", "C06", "C08", "C12", "C13", "C14", "C15", "C16", "C19", "C20"]
@@ -399,6 +399,9 @@ def main(argv=None):
     ap.add_argument("--json", action="store_true")
     ap.add_argument("--no-evidence", action="store_true")
     ap.add_argument("--exec-trace", action="store_true")
+    ap.add_argument("--digests", type=int, default=None)
+    ap.add_argument("--props", default=None)
+    ap.add_argument("--all", action="store_true")
     ap.add_argument("--one", type=int, default=None, help="execute the single run with this run seed and print its result")
     a = ap.parse_args(argv)
     prop = a.prop.upper()
@@ -413,6 +416,10 @@ def main(argv=None):
     if prop not in PROPS:
         print(f"unknown property {prop}; claimed: {PROPS}")
         return 2
+    if a.digests is not None:
+        from .selftest import digests_main
+
+        return digests_main(prop, a.digests, a.workers or 1)
     if a.exec_trace:
         from .machines.c19 import exec_trace_main
 
